@@ -199,7 +199,7 @@ def judge(v):
                 "model_fun": mf[k] if k < len(mf) else None, "impl_fun": imf[k] if k < len(imf) else None}
     if m.get("X", "ok") not in ("ok", "skipped"):
         return {"kind": "model-selfcheck", "what": m.get("X")}
-    if mst not in ("skipped", "fail:fuel"):
+    if mst not in ("skipped", "fail:fuel", "fail:range"):
         exp = mout.replace(",", "\n") + ("\n" if mout else "")
         if r["stdout"] != exp or (mst == "ok") != (rst == "Ok:0"):
             return {"kind": "tie-machine", "what": "output differs from the slot/box/capture machine run on the model's paths",
@@ -385,6 +385,16 @@ def for_item_is_one_variable():
             b.for_("x", ("op", "list", [("lit", 1), ("lit", 2), ("lit", 3)]),
                    [("op", "exprS", [("op", "push", [b.v("fs"), b.lam([], [b.ret(b.v("x"))])])])]),
             b.for_("g", b.v("fs"), [b.pr(b.call(b.v("g")))])]
+
+
+@scen
+def for_iterable_is_outside_the_item_scope():
+    # repaired finding D31: `fn f() { let x = 5; let ys = [7, 8]; for x in [(|| { return x; })(), x + 1] { print(x); } print(x); }`
+    b = B()
+    it = ("op", "list", [b.call(b.lam([], [b.ret(b.v("x"))])), b.add(b.v("x"), ("lit", 1))])
+    return [b.fn("f", [], [b.let("x", ("lit", 5)), b.for_("x", it, [b.pr(b.v("x")), b.set("x", ("lit", 0))]), b.pr(b.v("x")),
+                           b.ret(("lit", 0))]),
+            ("op", "exprS", [b.call(b.v("f"))])]
 
 
 @scen
@@ -621,7 +631,7 @@ def run(ctx):
     ctx.assumptions += [
         "Model/Scope.lean (resolver, compiler) and Model/ScopeMachine.lean are hand-written; their agreement with the Rust code is checked on the generated programs (access paths, capture lists, box instructions per function; program output), not proved",
         "the Spec interpreter (Model/ScopeSpec.lean) is the executable statement of the property for the fragment: integers, let/assign/lambda/fn/call/if/while/for-over-list/print, lists of closures, try/catch of Error, classes with fields and methods",
-        "generators stay outside the signatures of D1, D2 and of this property's known findings D31 (closure in a for-iterable mentioning the item name) and D32 (closure over self inside init)",
+        "generators stay outside the signatures of D1, D2 and of this property's finding D32 (closure over self inside init); for-iterables that mention an outer variable named like the item, directly or from a function literal (the shape of the repaired finding D31), are generated and judged by the Spec",
         "C02_env_simulation (Spec interpreter = machine on every accepted program) is stated, not proved; it is checked on every generated program",
     ]
 
